@@ -51,8 +51,8 @@ theorem Inv.out {ctx : Ctx} {T : List FEntry} {c : SCfg} {m : Cfg} (h : Inv ctx 
 theorem linesOK_simples {ctx : Ctx} {hi : Nat} {ds : List String} {ls : List Line} (h : LinesOK ctx hi ds ls) :
     LinesOK ctx hi ds (flats (ls.map Cmd.simple)) := by rw [flats_simples]; exact h
 
-theorem linesOK_plain1 (ctx : Ctx) (hi : Nat) (ds : List String) (l : Line) (h1 : lineTargets l = []) (h2 : isCall l = false) :
-    LinesOK ctx hi ds [l] := LinesOK.cons (sline_plain _ _ _ _ h1 h2) (LinesOK.nil _ _ _)
+theorem linesOK_plain1 (ctx : Ctx) (hi : Nat) (ds : List String) (l : Line) (h1 : lineTargets l = []) (h2 : isCall l = false)
+    (h3 : isDefLine l = false := by rfl) : LinesOK ctx hi ds [l] := LinesOK.cons (sline_plain _ _ _ _ h1 h2 h3) (LinesOK.nil _ _ _)
 
 /-- the lines of an expression as commands, then more commands -/
 theorem runs_ok_then {ctx : Ctx} {T : List FEntry} {B : Nat} {new : List Line} {lo n : Nat} {ts : List String} {m : Cfg} {os : List Opd} {c1 : SCfg}
@@ -337,7 +337,7 @@ theorem retLines_ok (ctx : Ctx) (hi : Nat) (ds : List String) : ∀ (ts : List S
   | [], _ => LinesOK.nil _ _ _
   | t :: ts, i => by
     simp only [C02.retLines]
-    refine LinesOK.cons ⟨fun x hx => ?_, fun nm ar e => by cases e⟩ (retLines_ok ctx hi ds ts (i + 1))
+    refine LinesOK.cons ⟨fun x hx => ?_, fun nm ar e => (by cases e), rfl⟩ (retLines_ok ctx hi ds ts (i + 1))
     simp only [lineTargets, List.mem_singleton] at hx
     exact Or.inr (Or.inr (Or.inr (Or.inl ⟨i, by rw [hx]; rfl⟩)))
 
@@ -493,7 +493,7 @@ theorem assign1_semF {ctx : Ctx} {T : List FEntry} {B : Nat} (hT : TableOK T) (h
   refine ⟨(new.reverse ++ [Line.assign (ctx.mg x.name x.global) (firstValue r)]).map Cmd.simple, n, 0, ?_, ?_, ?_⟩
   · rw [es', flats_simples, varName_ctx, ctxOf_adv, hc]
     simp [adv, adv2]
-  · refine linesOK_simples (((sim.lines.reverse).mono (Nat.zero_le _)).append (LinesOK.cons ⟨fun y hy => ?_, fun nm ar e' => by cases e'⟩ (LinesOK.nil _ _ _)))
+  · refine linesOK_simples (((sim.lines.reverse).mono (Nat.zero_le _)).append (LinesOK.cons ⟨fun y hy => ?_, fun nm ar e' => (by cases e'), rfl⟩ (LinesOK.nil _ _ _)))
     simp only [lineTargets, List.mem_singleton] at hy
     exact Or.inr (Or.inr (Or.inl ⟨x.name, x.global, hx, hy⟩))
   · intro fuel c o c' hs m hi
@@ -540,7 +540,7 @@ theorem call_unused_semF {ctx : Ctx} {T : List FEntry} {B : Nat} (hT : TableOK T
     exact this
   subst hen
   refine ⟨Line.callFn e.fd.name as :: newA, nA, by rw [es, es2, e4, e3]; simp [adv], ⟨?_, ?_⟩⟩
-  · refine LinesOK.cons ⟨fun x hx => by simp [lineTargets] at hx, fun nm ar e' => ?_⟩ simA.lines
+  · refine LinesOK.cons ⟨fun x hx => by simp [lineTargets] at hx, fun nm ar e' => ?_, rfl⟩ simA.lines
     simp only [Line.callFn.injEq] at e'
     rw [← e'.1]
     simp only [tnames, List.mem_map]
@@ -626,7 +626,7 @@ theorem storeLines_ok (ctx : Ctx) (hi : Nat) (ds : List String) : ∀ (vars : Li
   | x :: xs, t :: ts, hg => by
     simp only [List.all_cons, Bool.and_eq_true] at hg
     simp only [storeLines]
-    refine LinesOK.cons ⟨fun y hy => ?_, fun nm ar e => by cases e⟩ (storeLines_ok ctx hi ds xs ts hg.2)
+    refine LinesOK.cons ⟨fun y hy => ?_, fun nm ar e => (by cases e), rfl⟩ (storeLines_ok ctx hi ds xs ts hg.2)
     simp only [lineTargets, List.mem_singleton] at hy
     exact Or.inr (Or.inr (Or.inl ⟨x.name, x.global, hg.1, hy⟩))
 
